@@ -5,6 +5,7 @@ package main
 
 import (
 	"fmt"
+	"go/constant"
 	"go/token"
 	"go/types"
 	"regexp"
@@ -26,18 +27,34 @@ func registerGlobal(w *World) *ssa.Global {
 	if fn == nil {
 		return nil
 	}
-	for _, b := range fn.Blocks {
-		for _, in := range b.Instrs {
-			if lk, ok := in.(*ssa.Lookup); ok {
-				if ld, ok := lk.X.(*ssa.UnOp); ok {
-					if g, ok := ld.X.(*ssa.Global); ok {
-						if _, isMap := g.Type().(*types.Pointer).Elem().Underlying().(*types.Map); isMap {
-							return g
+	// by role: the package-level map consulted (directly or through a small
+	// in-repo helper) when NewClaims resolves a profile name
+	seen := map[*ssa.Function]bool{fn: true}
+	level := []*ssa.Function{fn}
+	for depth := 0; depth < 3; depth++ {
+		var next []*ssa.Function
+		for _, f := range level {
+			for _, b := range f.Blocks {
+				for _, in := range b.Instrs {
+					switch x := in.(type) {
+					case *ssa.Lookup:
+						if ld, ok := x.X.(*ssa.UnOp); ok {
+							if g, ok := ld.X.(*ssa.Global); ok {
+								if _, isMap := g.Type().(*types.Pointer).Elem().Underlying().(*types.Map); isMap {
+									return g
+								}
+							}
+						}
+					case *ssa.Call:
+						if c := x.Call.StaticCallee(); c != nil && !seen[c] && c.Blocks != nil && w.InRepo(c) {
+							seen[c] = true
+							next = append(next, c)
 						}
 					}
 				}
 			}
 		}
+		level = next
 	}
 	return nil
 }
@@ -112,6 +129,10 @@ func checkC07(w *World, r *Recorder) propInfo {
 	c07Profiles(w, r)
 	ruleUnmarshalShape(w, r, "C07-P6", "UnmarshalCBOR", true)
 	ruleUnmarshalShape(w, r, "C07-P6", "UnmarshalJSON", true)
+	// P7: the COSE path has no dispatch of its own: the claims of a decoded
+	// Evidence come from DecodeClaimsFromCBOR applied to the message's payload
+	// on every successful path (never from an object that was attached before)
+	c20Payload(w, r, "C07-P7")
 	r.Floor("C07-P1", 1)
 	r.Floor("C07-P2", 2)
 	r.Floor("C07-P3", 1)
@@ -635,6 +656,17 @@ func registerSource(v ssa.Value, reg *ssa.Global) (string, string) {
 					continue
 				}
 				return "", ""
+			case *ssa.Call:
+				// a lookup helper: func(name) (…entry/profile…, bool) whose result
+				// comes from register[name]; called with the constant ""
+				if h := t.Call.StaticCallee(); h != nil && x.Index == 0 {
+					if pi := registerLookupHelper(h, reg); pi >= 0 && pi < len(t.Call.Args) {
+						if c, ok := t.Call.Args[pi].(*ssa.Const); ok && c.Value != nil && c.Value.Kind() == constant.String && constStringVal(c) == "" {
+							return "default", ""
+						}
+					}
+				}
+				return "", ""
 			default:
 				return "", ""
 			}
@@ -650,6 +682,104 @@ func registerSource(v ssa.Value, reg *ssa.Global) (string, string) {
 		}
 	}
 	return "", ""
+}
+
+// registerLookupHelper: h's only map lookup is register[param i] (comma-ok)
+// and every return hands on (a field of) that lookup's value and its ok flag.
+// Returns i, or -1.
+func registerLookupHelper(h *ssa.Function, reg *ssa.Global) int {
+	if h.Blocks == nil || h.Signature.Results().Len() != 2 {
+		return -1
+	}
+	var lk *ssa.Lookup
+	for _, b := range h.Blocks {
+		for _, in := range b.Instrs {
+			switch x := in.(type) {
+			case *ssa.Lookup:
+				if lk != nil || !loadsGlobal(x.X, reg) || !x.CommaOk {
+					return -1
+				}
+				lk = x
+			case *ssa.Store, *ssa.MapUpdate:
+				if _, isLocal := addrRootAlloc(storeAddr(x)); !isLocal {
+					return -1
+				}
+			}
+		}
+	}
+	if lk == nil {
+		return -1
+	}
+	pi := -1
+	for i, p := range h.Params {
+		if lk.Index == ssa.Value(p) {
+			pi = i
+		}
+	}
+	if pi < 0 {
+		return -1
+	}
+	for _, b := range h.Blocks {
+		ret, ok := b.Instrs[len(b.Instrs)-1].(*ssa.Return)
+		if !ok {
+			continue
+		}
+		okv, isEx := ret.Results[1].(*ssa.Extract)
+		if !isEx || okv.Tuple != ssa.Value(lk) || okv.Index != 1 {
+			return -1
+		}
+		if src, _ := registerSourceNoHelper(ret.Results[0], lk); !src {
+			return -1
+		}
+	}
+	return pi
+}
+
+func storeAddr(in ssa.Instruction) ssa.Value {
+	switch x := in.(type) {
+	case *ssa.Store:
+		return x.Addr
+	case *ssa.MapUpdate:
+		return x.Map
+	}
+	return nil
+}
+
+// registerSourceNoHelper: v is (a field of, possibly via a local copy) value #0 of lookup lk.
+func registerSourceNoHelper(v ssa.Value, lk *ssa.Lookup) (bool, string) {
+	v = stripIface(v)
+	for i := 0; i < 8 && v != nil; i++ {
+		switch x := v.(type) {
+		case *ssa.Field:
+			v = x.X
+		case *ssa.Extract:
+			return x.Tuple == ssa.Value(lk) && x.Index == 0, ""
+		case *ssa.UnOp:
+			fa, ok := x.X.(*ssa.FieldAddr)
+			if !ok {
+				return false, ""
+			}
+			al, ok := fa.X.(*ssa.Alloc)
+			if !ok {
+				return false, ""
+			}
+			var stored ssa.Value
+			n := 0
+			for _, ref := range *al.Referrers() {
+				if st, ok := ref.(*ssa.Store); ok && st.Addr == ssa.Value(al) {
+					stored = st.Val
+					n++
+				}
+			}
+			if n != 1 {
+				return false, ""
+			}
+			v = stored
+		default:
+			return false, ""
+		}
+	}
+	return false, ""
 }
 
 func loadsGlobal(v ssa.Value, g *ssa.Global) bool {
@@ -736,15 +866,24 @@ func iterationGuarded(fn *ssa.Function, l jsonLeaf, reg *ssa.Global) (bool, stri
 		if !ok {
 			continue
 		}
+		// a negated condition (switch { case !present: … }) swaps the edges
+		cond, tSucc := ifi.Cond, 0
+		for {
+			if n, ok := cond.(*ssa.UnOp); ok && n.Op == token.NOT {
+				cond, tSucc = n.X, 1-tSucc
+				continue
+			}
+			break
+		}
 		// present: cond is extract #1 of a comma-ok Lookup whose key derives from the iteration entry
-		if ex, ok := ifi.Cond.(*ssa.Extract); ok && ex.Index == 1 {
+		if ex, ok := cond.(*ssa.Extract); ok && ex.Index == 1 {
 			if lk, ok := ex.Tuple.(*ssa.Lookup); ok && lk.CommaOk && !loadsGlobal(lk.X, reg) {
-				if src, _ := registerSource(lk.Index, reg); src == "iteration" && edgeDominates(b, 0, l.pred) {
+				if src, _ := registerSource(lk.Index, reg); src == "iteration" && edgeDominates(b, tSucc, l.pred) {
 					present = true
 				}
 			}
 		}
-		if bo, ok := ifi.Cond.(*ssa.BinOp); ok && (bo.Op == token.EQL || bo.Op == token.NEQ) {
+		if bo, ok := cond.(*ssa.BinOp); ok && (bo.Op == token.EQL || bo.Op == token.NEQ) {
 			isName := func(v ssa.Value) bool {
 				c, ok := stripIface(v).(*ssa.Call)
 				if !ok || !c.Call.IsInvoke() || c.Call.Method.Name() != "GetName" {
@@ -766,9 +905,9 @@ func iterationGuarded(fn *ssa.Function, l jsonLeaf, reg *ssa.Global) (bool, stri
 				return src == "iteration"
 			}
 			if (isName(bo.X) && isMember(bo.Y)) || (isName(bo.Y) && isMember(bo.X)) {
-				eqSucc := 0
+				eqSucc := tSucc
 				if bo.Op == token.NEQ {
-					eqSucc = 1
+					eqSucc = 1 - tSucc
 				}
 				if edgeDominates(b, eqSucc, l.pred) {
 					equal = true
@@ -965,7 +1104,7 @@ func c16Factories(w *World, r *Recorder) {
 			continue
 		}
 		pr := ef.RetProv[0]
-		r.Check(pr.onlyFresh() && pr.Fresh, "C16-N3", key+"#fresh", w.FnPos(gc), "result provenance: fresh allocation only", "the factory's result may share memory with: "+pr.String())
+		r.Check(pr.onlyFresh() && pr.Fresh && len(pr.Holds) == 0, "C16-N3", key+"#fresh", w.FnPos(gc), "result provenance: fresh allocation only", "the factory's result may share memory with: "+pr.String())
 		s := w.SummariseWith(gc, noInlineEncoding(w))
 		if ok, why := s.Complete(); !ok {
 			r.Undecide("C16-N3", key, w.FnPos(gc), why)
@@ -1073,6 +1212,50 @@ func c16Conflict(w *World, r *Recorder, reg *ssa.Global) {
 		succ := b.Succs[diff]
 		if ret, isRet := succ.Instrs[len(succ.Instrs)-1].(*ssa.Return); isRet && len(ret.Results) == 2 && definitelyNonNilErr(ret.Results[1]) && isNilConst(ret.Results[0]) {
 			ok = true
+		}
+	}
+	if !ok {
+		// the && form: names-differ feeds a φ (other edges constant false) that an If tests
+		for _, b := range d.sel.Blocks {
+			for _, in := range b.Instrs {
+				bo, isBin := in.(*ssa.BinOp)
+				if !isBin || bo.Op != token.NEQ {
+					continue
+				}
+				isGN := func(v ssa.Value) bool {
+					c, ok := v.(*ssa.Call)
+					return ok && c.Call.IsInvoke() && c.Call.Method.Name() == "GetName"
+				}
+				if !isGN(bo.X) || !isGN(bo.Y) {
+					continue
+				}
+				for _, ref := range *bo.Referrers() {
+					phi, isPhi := ref.(*ssa.Phi)
+					if !isPhi {
+						continue
+					}
+					constFalse := true
+					for _, e := range phi.Edges {
+						if e == ssa.Value(bo) {
+							continue
+						}
+						if k, isK := e.(*ssa.Const); !isK || k.Value == nil || constant.BoolVal(k.Value) {
+							constFalse = false
+						}
+					}
+					if !constFalse {
+						continue
+					}
+					for _, r2 := range *phi.Referrers() {
+						if ifi, isIf := r2.(*ssa.If); isIf && ifi.Cond == ssa.Value(phi) {
+							succ := ifi.Block().Succs[0]
+							if ret, isRet := succ.Instrs[len(succ.Instrs)-1].(*ssa.Return); isRet && len(ret.Results) == 2 && definitelyNonNilErr(ret.Results[1]) && isNilConst(ret.Results[0]) {
+								ok = true
+							}
+						}
+					}
+				}
+			}
 		}
 	}
 	r.Check(ok, "C16-N4", "DecodeClaimsFromJSON#conflict", w.FnPos(fn), "two matches with different names ⇒ error", "two registered profiles with different names can both match without an error (the winner would depend on iteration order)")
